@@ -259,6 +259,7 @@ class Ctx:
         """
         self.obligations += 1
         self.labels[label] += 1
+        info = _plain_info(info)
         if isinstance(cond, bool):
             if cond:
                 self.discharged += 1
@@ -306,6 +307,21 @@ class Ctx:
 
     def note(self, x):
         self.notes.append(x)
+
+
+def _plain_info(info):
+    """diagnostic texts travel to the report as plain data (a rendered symbolic number / text is only named)"""
+    from .strings import SymStr, Tainted
+
+    if isinstance(info, Tainted):
+        return f"<rendered symbolic number {info.what}>"
+    if isinstance(info, SymStr):
+        return "<symbolic text>"
+    if isinstance(info, dict):
+        return {k: _plain_info(v) for k, v in info.items()}
+    if isinstance(info, (list, tuple)):
+        return [_plain_info(v) for v in info]
+    return info
 
 
 def _as_z3_bool(cond):
